@@ -23,6 +23,11 @@ def parse_expr(text):
 
 def eval_text(eng, st, fid, text, extra=None):
     """evaluate a contract clause in ghost mode in the scope of frame ``fid``"""
+    from .engine import CurState
+
+    if isinstance(st, CurState):
+        st = eng.cur_state
+    eng.cur_state = st
     node = parse_expr(text) if isinstance(text, str) else text
     sub = eng.new_frame(st, parent=fid, module=st.frames[fid]["module"] if fid in st.frames else None)
     gf = getattr(eng, "ghost_env", None)
@@ -38,7 +43,12 @@ def eval_text(eng, st, fid, text, extra=None):
         if gd:
             for k, t in gd.items():
                 eng.setvar(st, sub, k, eng.eval1(parse_expr(t), st, sub))
-        rs = eng.eval_fork(node, st, sub)
+        try:
+            rs = eng.eval_fork(node, st, sub)
+        except Unsupported as e:
+            if "[in clause" not in str(e):
+                raise Unsupported(f"{e} [in clause: {text if isinstance(text, str) else '<ast>'}]")
+            raise
     finally:
         st.ghost -= 1
     if len(rs) != 1:
@@ -105,6 +115,7 @@ def prove_unit(eng: Engine, unit: Unit, prop: str):
     for k in declared - present:
         raise Unsupported(f"contract of {unit.id} names loop {k!r} which is not in the source (loops: {sorted(present)})")
     eng.merge_paths = unit.opts.get("merge", True)
+    eng.nested_prefix = f"{unit.module}:{unit.func}"
     eng.sat_level = unit.opts.get("sat_level", 0)
     st = State()
     fid = eng.new_frame(st, parent=None, module=mod)
